@@ -335,4 +335,5 @@ def generate():
     from . import gen_src
     out = dict(gen_src.generate('eval'))
     out.update(gen_src.generate('exec'))
+    out.update(gen_src.generate('env'))      # the scalar library behind Eval.apply_func (C01_library_source_*)
     return out
